@@ -204,7 +204,10 @@ _RREQ = ["H >= 3", "W >= 3", "NB.shape[0] == H * W", "NB.shape[1] == 4", "SZ.sha
 # the helpers return (aliases of) their array arguments; callers see the returned pair as arrays with the same contents
 _RRES = ["result[0].shape[0] == H * W", "result[0].shape[1] == 4", "result[1].shape[0] == H * W",
          "forall(0, H * W, lambda p: forall(0, 4, lambda k: result[0][p, k] == NB[p, k]))",
-         "forall(0, H * W, lambda p: result[1][p] == SZ[p])"]
+         "forall(0, H * W, lambda p: result[1][p] == SZ[p])",
+         # (the same, per cell: lets callers chain the helpers without re-deriving 0 <= r*W + c < H*W each time)
+         "forall(0, H, lambda r: forall(0, W, lambda c: forall(0, 4, lambda k: result[0][" + _FL("r", "c") + ", k] == NB[" + _FL("r", "c") + ", k])"
+         " and result[1][" + _FL("r", "c") + "] == SZ[" + _FL("r", "c") + "]))"]
 
 
 def _rows(region, lo, hi=None):
@@ -329,6 +332,21 @@ def _g_area(rng, tier):
 
 CONTRACTS[ME + "delaunay_triangle_area_from"].gen = _g_area
 
+# partial row sums of a weight table, with the closed forms for the two row lengths the mappers produce (1 and 3)
+_PS = lambda i="i", n="n": "c06_psum(A, %s, %s)" % (i, n)
+spec_fn(
+    "c06_psum", params=[("A", "real[2]"), ("i", "int"), ("n", "int")], ret="real", let={"RN": "A.shape[0]", "RP": "A.shape[1]"},
+    axioms=["forall(0, RN, lambda i: " + _PS(n="0") + " == 0, pat=" + _PS(n="0") + ")",
+            "forall(0, RN, lambda i: forall(0, RP, lambda n: " + _PS(n="n + 1") + " == " + _PS() + " + A[i, n], pat=" + _PS(n="n + 1") + "))"],
+    lemmas=[dict(name="sum", induct="n", lo=0, hi="RP",
+                 stmt="forall(0, RN, lambda i: sumto(n, lambda c: A[i, c]) == " + _PS() + ", pat=sumto(n, lambda c: A[i, c]))"),
+            dict(name="small", noinduct=True,
+                 stmt="forall(0, RN, lambda i: implies(RP >= 1, " + _PS(n="1") + " == A[i, 0]) and implies(RP >= 3, " + _PS(n="3") + " == A[i, 0] + A[i, 1] + A[i, 2]),"
+                      " pat=(" + _PS(n="1") + ", " + _PS(n="3") + "))")],
+    py=lambda A, i, n: float(np.sum(np.asarray(A, dtype=float)[i, :n])),
+    doc="partial row sum of a weight table",
+)
+
 # vertex j (0, 1, 2) of the simplex of sub-pixel s and the data point, by coordinate
 _V = lambda j, d, s="s": "M[idx[%s, %d], %d]" % (s, j, d)
 _PT = lambda d, s="s": "G[%s, %d]" % (s, d)
@@ -373,7 +391,8 @@ contract(
              "forall(0, S, lambda s: " + _dw_lin("result") + ")",
              "forall(0, S, lambda s: " + _dw_bary("result") + ", pat=" + _DW_PAT + ")",
              # the same normalisation in the summation form mapping_matrix_from asks for (1 mapping outside the hull, 3 inside)
-             "forall(0, S, lambda s: sumto((1 if idx[s, 1] == -1 else 3), lambda c: result[s, c]) == 1)"],
+             "forall(0, S, lambda s: implies(idx[s, 1] == -1, c06_psum(result, s, 1) == 1 and sumto(1, lambda c: result[s, c]) == 1))",
+             "forall(0, S, lambda s: implies(idx[s, 1] != -1, c06_psum(result, s, 3) == 1 and sumto(3, lambda c: result[s, c]) == 1))"],
     loops={0: {"inv": ["forall(0, sub_slim_index, lambda s: " + _dw_lin("pixel_weights") + ")",
                        "forall(0, sub_slim_index, lambda s: " + _dw_bary("pixel_weights") + ", pat=" + _DW_PAT + ")",
                        "forall(sub_slim_index, S, lambda s: pixel_weights[s, 0] == 0 and pixel_weights[s, 1] == 0 and pixel_weights[s, 2] == 0)"],
